@@ -24,6 +24,16 @@ CFG = {
         "NULL out-pointer in a child process.  Generator rules that keep the expected result determined: at most 4 open sessions+scans per "
         "store; while a transaction is open only that session is used; no writes on a store that has had a scan; after a close without "
         "callback the harness waits for the handle to disappear.  "
+        "Follow-up ops: rekey through askar_store_rekey (valid raw keys, kdf:argon2i:int passwords incl. empty, none, default method, malformed raw "
+        "keys: blank / short / 31 and 33 bytes / non-base58, NULL pass key, unknown or malformed method strings, method with trailing detail, "
+        "non-UTF-8 method, bad and closed handles, no callback); every eighth case is a re-key life cycle on a database FILE: each attempt is "
+        "followed by continued use of the same store handle (session start, insert, fetch, commit, fetch through a session opened before the "
+        "re-key, profile name) and, through askar_store_open, by opening the file with the current key and with the key it replaced; the twin "
+        "runs the same sequence through Store::rekey / Store::open.  Also: remove_profile, get/set_default_profile, stored keys "
+        "(insert_key / fetch_key / fetch_all_keys / update_key / remove_key with key-entry-list accessors, load_local, bad indices, NULL out), "
+        "key_from_seed round trips against LocalKey::from_seed (public / secret bytes, JWK, thumbprint, cross sign / verify), a NULL-handle and "
+        "NULL-out sweep over 33 synchronous key / list accessors, string-list count, askar_version, askar_set_max_log_level, and "
+        "askar_get_current_error after every kind of failure (the slot must hold the last reported error) and with a NULL out-pointer (child process).  "
         "non-trivial: >= 8 ops, >= 1 callback that delivered data or a handle, and >= 1 op that ended in an error code (bad handle, "
         "malformed argument or library error).  distinct = hash of the case"
     ),
@@ -38,8 +48,19 @@ CFG = {
         "the counter does not wrap: fewer than 2^64 handles are issued in the life of a process (hypothesis of handles_never_reused)",
         "Busy on removal while a handle is borrowed, and tokio scheduling, are runtime behaviour outside the sequential model (partial)",
         "freed list / key pointers and negative ByteBuffer lengths are outside the header contract and never generated",
+        "three repaired sites are modelled in both variants and selected by flags that tools/extract.py reads from the source "
+        "(Generated/Flags.lean passKeyAsRefKeepsNone, ffiOrderByErrorRecorded, ffiCurrentErrorChecksOut; like ffiTagKeysOwned, ffiRawKeyChecksOut): "
+        "the driver runs the variant of the tree under test, the theorems cover both",
         "ErrorCode numbering and the key type of EntryTagSet's deserialiser (Model/Ffi.lean `keysBorrowedOnly`) are transcribed by hand, not "
         "regenerated by tools/extract.py",
+        "raw-key validity (base58, 32 bytes) is decided in the model by membership in the generator's table of three valid keys; key material, "
+        "JWK and signatures are not modelled here (C11/C13/C14): key ops are compared with the Rust API by the oracle, the model gives the status",
+        "entry points NOT called by this check: askar_key_aead_encrypt, askar_key_aead_decrypt, askar_key_aead_get_padding, askar_key_aead_get_params, "
+        "askar_key_convert, askar_key_crypto_box, askar_key_crypto_box_open, askar_key_crypto_box_seal, askar_key_crypto_box_seal_open, "
+        "askar_key_derive_ecdh_1pu, askar_key_derive_ecdh_es, askar_key_from_jwk, askar_key_from_key_exchange, askar_key_from_public_bytes, "
+        "askar_key_from_secret_bytes, askar_key_unwrap_key, askar_key_wrap_key (crypto arguments: C12-C15 test the Rust side), askar_store_copy, "
+        "askar_store_remove, askar_migrate_indy_sdk (C18), askar_set_custom_logger, askar_set_default_logger, askar_clear_custom_logger "
+        "(process-global, one-shot), askar_terminate (shuts the runtime down for the rest of the process)",
     ],
     "trusted_base": [
         "harness/src/c19/ffi.rs: extern \"C\" declarations (transcribed from src/ffi/*.rs / include/libaries_askar.h) and the callback recorder",
